@@ -34,6 +34,22 @@ pub fn render<'a>(fmt: &str, root: &'a AstNode<'a>, o: &Options) -> Vec<u8> {
     out
 }
 
+/// (collect_text, slug) of every heading, slug = a fresh Anchorizer's answer (no uniqueness suffix):
+/// the oracle the Coq model takes as its `slug` parameter
+pub fn slugs<'a>(root: &'a AstNode<'a>) -> String {
+    let mut s = String::new();
+    for n in root.descendants() {
+        if let comrak::nodes::NodeValue::Heading(_) = n.data.borrow().value {
+            let mut t = vec![];
+            comrak::html::collect_text(n, &mut t);
+            let text = String::from_utf8(t).unwrap();
+            let slug = comrak::Anchorizer::new().anchorize(text.clone());
+            s.push_str(&format!(" {} {}", hex(text.as_bytes()), hex(slug.as_bytes())));
+        }
+    }
+    s
+}
+
 /// parent/child/sibling links mutually consistent, via the public accessors only
 fn links_ok<'a>(root: &'a AstNode<'a>) -> Result<(), String> {
     let mut stack = vec![root];
@@ -153,14 +169,15 @@ pub fn dispatch(op: &str, a: &[String]) -> String {
             let x = stage(|| render("xml", root, &o));
             let c = stage(|| render("cm", root, &o));
             format!(
-                "ok {} | V {} | L {} {} | H {} | X {} | C {}",
+                "ok {} | V {} | L {} {} | H {} | X {} | C {} | S{}",
                 t,
                 v,
                 if l.is_ok() { 1 } else { 0 },
                 hex(l.err().unwrap_or_default().as_bytes()),
                 h,
                 x,
-                c
+                c,
+                slugs(root)
             )
         }
         // render <fmt> <opts> <tree tokens...> -> ok <hex>
@@ -168,7 +185,8 @@ pub fn dispatch(op: &str, a: &[String]) -> String {
             let o = opts::decode(&a[1]);
             let arena = Arena::new();
             let root = tree::build(&arena, &a[2..]);
-            ok(&render(&a[0], root, &o))
+            let s = slugs(root);
+            format!("{} S{}", ok(&render(&a[0], root, &o)), s)
         }
         // rt <opts> <md> -> ok H1 | C1 | H2 | C2   (CommonMark round trip, each stage guarded)
         "rt" => {
